@@ -10,6 +10,12 @@
 //	          on one file), random size hint
 //	bufreader store.NewBufferFileReader over random content vs. a read-only file
 //
+// One case is a CHAIN of 2-4 such buffers created one after the other, ended by
+// Cancel / Close / Commit (memfile: also Delete + re-Create of the same or
+// another key in the same store), later buffers sized to fit into earlier ones:
+// state leaking from a finished buffer into a new one (recycled backing arrays)
+// shows up as non-zero gap bytes. Every buffer gets its own fresh OS file.
+//
 // Ops: Write, WriteAt (inside, crossing the end, at the end, beyond the end
 // leaving a gap, far beyond the initial capacity, zero length, negative
 // offset), Read and ReadAt (inside, crossing the end, at / beyond the end,
@@ -58,7 +64,17 @@ type seq struct {
 	Cap     int    `json:"cap"`            // initial capacity / size hint / initial content length
 	Init    byte   `json:"init,omitempty"` // fill seed of the initial content (bufreader)
 	Handles int    `json:"handles"`
+	Key     int    `json:"key,omitempty"`  // memfile: key index inside the chain's store
+	End     string `json:"end,omitempty"`  // lifecycle call that ends this buffer: cancel | close | commit | none
+	Drop    bool   `json:"drop,omitempty"` // memfile: Delete the key when the life ends
 	Ops     []op   `json:"ops"`
+}
+
+// chain is one case: several buffers of one subject kind created one after the
+// other (full lifecycle in between), each judged against its own fresh OS file.
+type chain struct {
+	Subject string `json:"subject"`
+	Lives   []seq  `json:"lives"`
 }
 
 func payload(fill byte, n int) []byte {
@@ -123,7 +139,37 @@ func pickOff(r *rand.Rand, size int64, capHint int) int64 {
 	}
 }
 
-func genSeq(r *rand.Rand, subject string) seq {
+func genChain(r *rand.Rand, subject string) chain {
+	c := chain{Subject: subject}
+	n := 2 + r.Intn(3)
+	prev := int64(0)
+	live := map[int]bool{}
+	for i := 0; i < n; i++ {
+		s, size := genSeq(r, subject, i, prev)
+		if subject == "memfile" {
+			// a key index that is not live: re-creates a deleted key or uses another one
+			var free []int
+			for k := 0; k < 4; k++ {
+				if !live[k] {
+					free = append(free, k)
+				}
+			}
+			s.Key = free[r.Intn(len(free))]
+			if r.Intn(3) != 0 {
+				s.Key = free[0] // prefer the lowest free index: the key deleted last is created again
+			}
+			s.Drop = r.Intn(3) != 0
+			live[s.Key] = !s.Drop
+		}
+		s.End = []string{"cancel", "cancel", "close", "commit", "none"}[r.Intn(5)]
+		c.Lives = append(c.Lives, s)
+		prev = size
+	}
+	return c
+}
+
+// genSeq generates one life. prev is the final size of the previous buffer of the chain.
+func genSeq(r *rand.Rand, subject string, life int, prev int64) (seq, int64) {
 	s := seq{Subject: subject, Handles: 1}
 	switch subject {
 	case "bufrw":
@@ -135,12 +181,37 @@ func genSeq(r *rand.Rand, subject string) seq {
 		s.Cap = []int{0, 1, 5, 40, 300}[r.Intn(5)] + r.Intn(8)
 		s.Init = byte(r.Intn(256))
 	}
+	if life > 0 && prev > 0 && r.Intn(10) < 6 {
+		s.Cap = 1 + r.Intn(int(min(prev, 4096))) // a capacity / size hint that fits into the previous buffer
+	}
 	m := genModel{pos: make([]int64, s.Handles)}
 	if subject == "bufreader" {
 		m.size = int64(s.Cap)
 	}
-	n := 10 + r.Intn(41)
+	n := 8 + r.Intn(28)
 	readonly := subject == "bufreader"
+	if !readonly {
+		if life == 0 || r.Intn(3) == 0 {
+			// earlier buffers are filled with non-zero bytes
+			o := op{K: "write", Len: 64 + r.Intn(700), Fill: byte(r.Intn(256))}
+			if life > 0 {
+				o = op{K: "writeat", Off: int64(1 + r.Intn(40)), Len: 64 + r.Intn(400), Fill: byte(r.Intn(256))}
+				m.size = o.Off + int64(o.Len)
+			} else {
+				m.size, m.pos[0] = int64(o.Len), int64(o.Len)
+			}
+			s.Ops = append(s.Ops, o)
+		} else {
+			// later buffers start with a gap-creating positional write inside the old extent
+			lim := int64(s.Cap)
+			if lim < 2 {
+				lim = max(prev, 2)
+			}
+			o := op{K: "writeat", Off: 1 + r.Int63n(lim), Len: 1 + r.Intn(8), Fill: byte(r.Intn(256))}
+			m.size = o.Off + int64(o.Len)
+			s.Ops = append(s.Ops, o)
+		}
+	}
 	for len(s.Ops) < n {
 		h := 0
 		if s.Handles > 1 && r.Intn(3) == 0 {
@@ -205,7 +276,7 @@ func genSeq(r *rand.Rand, subject string) seq {
 		}
 		s.Ops = append(s.Ops, o)
 	}
-	return s
+	return s, m.size
 }
 
 // ---------------------------------------------------------------- execution
@@ -214,6 +285,8 @@ type env struct {
 	dir   string
 	store *memory.Store
 	n     int
+	chain int    // running chain number (key namespace)
+	cur   *chain // chain being executed (for witnesses)
 }
 
 type pair struct {
@@ -286,7 +359,8 @@ func classifyOp(o op, size, pos int64) string {
 }
 
 type witness struct {
-	Seq      seq    `json:"sequence"`
+	Chain    *chain `json:"chain"`
+	Seq      seq    `json:"life"`
 	Step     int    `json:"step"`
 	Op       op     `json:"op"`
 	Class    string `json:"op_class"`
@@ -343,13 +417,15 @@ func runSeq(run *ev.Run, e *env, caseID string, s seq) (classes map[string]bool,
 		}
 		pairs[0] = pair{base.NewBufferReadWriter(uint64(s.Cap)), f}
 	case "memfile":
-		key := fmt.Sprintf("k-%d", e.n)
+		key := fmt.Sprintf("k-%d-%d", e.chain, s.Key)
 		mf, err := e.store.Create(key, uint64(s.Cap))
 		if err != nil {
 			run.Inconclusive("memory.Store.Create: " + err.Error())
 			return classes, false
 		}
-		defer e.store.Delete(key)
+		if s.Drop {
+			defer e.store.Delete(key) // runs after the lifecycle call below
+		}
 		mf2, err := e.store.Open(key)
 		if err != nil {
 			run.Inconclusive("memory.Store.Open: " + err.Error())
@@ -385,8 +461,22 @@ func runSeq(run *ev.Run, e *env, caseID string, s seq) (classes map[string]bool,
 			if p.ref != nil {
 				p.ref.Close()
 			}
-			if c, ok := p.sub.(io.Closer); ok {
-				c.Close()
+			if p.sub == nil {
+				continue
+			}
+			switch s.End {
+			case "cancel":
+				if c, ok := p.sub.(interface{ Cancel() error }); ok {
+					c.Cancel()
+				}
+			case "commit":
+				if c, ok := p.sub.(interface{ Commit() error }); ok {
+					c.Commit()
+				}
+			case "close":
+				if c, ok := p.sub.(io.Closer); ok {
+					c.Close()
+				}
 			}
 		}
 	}()
@@ -406,7 +496,7 @@ func runSeq(run *ev.Run, e *env, caseID string, s seq) (classes map[string]bool,
 		class := classifyOp(o, size, pos)
 		viol := func(what, obs, exp string) {
 			run.Violation(s.Subject+"/"+class+"/"+what, caseID,
-				witness{s, i, o, class, size, pos, what, obs, exp})
+				witness{e.cur, s, i, o, class, size, pos, what, obs, exp})
 		}
 		ok := true
 		switch o.K {
@@ -650,16 +740,18 @@ func genConcurrent(r *rand.Rand) (capHint int, writes [][]cwrite, grows bool) {
 
 func TestC12(t *testing.T) {
 	run := ev.Start(t, "C12", "exploration",
-		"PRNG op sequences (10-50 ops) per subject (bufrw 2/5, memfile with two handles 2/5, bufreader 1/5) with random initial capacity / size hint / content; "+
-			"offsets drawn from classes inside / at end / gap beyond end / near end / beyond initial capacity / far beyond / negative, lengths incl. 0; seeks only to targets in [0,size]. "+
-			"Non-trivial = the sequence executed a write that grew the file (append, crossing the end or leaving a gap; read-only subject: a read crossing or at the end) and ran to its last op; "+
-			"distinct = distinct (subject, capacity, op list). Plus a concurrent phase: 2-4 goroutines x 3-7 disjoint WriteAt calls.")
+		"A case is a chain of 2-4 buffers of one subject kind (bufrw 2/5, memfile with two handles 2/5, bufreader 1/5) created one after the other with the lifecycle call Cancel / Close / Commit / none in between "+
+			"(memfile: Delete and re-Create of the same or another key in one memory.Store), each buffer driven by a PRNG op sequence (8-36 ops) and judged against its own fresh OS file. "+
+			"Initial capacity / size hint is 0, a random size, or (60% of later buffers) a size that fits into the previous buffer; earlier buffers are filled with non-zero bytes, later ones start with a gap-creating WriteAt. "+
+			"Offsets: inside / at end / gap beyond end / near end / beyond initial capacity / far beyond / negative, lengths incl. 0; seeks only to targets in [0,size]. "+
+			"Non-trivial = the chain ran to its last op and executed a gap-leaving WriteAt (read-only subject: a read crossing or at the end); "+
+			"distinct = distinct generated chain. Plus a concurrent phase: 2-4 goroutines x 3-7 disjoint WriteAt calls.")
 	defer run.Finish()
 	run.Assume("the reference is Go's *os.File on the temp filesystem (pread/pwrite/lseek semantics of Linux)")
 	run.Assume("error values and EOF signalling are not compared; seeks outside [0,size] are not generated (DESIGN 3.40)")
 
 	const workers = 8
-	total := run.N(5000, 150000)
+	total := run.N(2000, 60000)
 	per := total / workers
 	conc := run.N(400, 8000) / workers
 	root := ev.TempDir(t, "c12-")
@@ -683,28 +775,46 @@ func TestC12(t *testing.T) {
 			e := &env{dir: dir, store: ms}
 			r := run.Rand(fmt.Sprintf("worker-%d", w))
 			for i := 0; i < per; i++ {
-				s := genSeq(r, subjects[i%len(subjects)])
+				c := genChain(r, subjects[i%len(subjects)])
 				caseID := fmt.Sprintf("w%d/s%d", w, i)
 				if rc := run.ReplayCase(); rc != "" && rc != caseID {
 					continue
 				}
-				classes, completed := runSeq(run, e, caseID, s)
-				for c := range classes {
-					run.Distinct("op_classes", s.Subject+"/"+c)
+				e.chain++
+				e.cur = &c
+				all := map[string]bool{}
+				completed := true
+				for _, s := range c.Lives {
+					classes, ok := runSeq(run, e, caseID, s)
+					for cl := range classes {
+						all[cl] = true
+						run.Distinct("op_classes", s.Subject+"/"+cl)
+					}
+					run.Count("buffers_"+s.Subject, 1)
+					run.Count("lifecycle_end_"+s.End, 1)
+					if !ok {
+						completed = false
+						break
+					}
+				}
+				if c.Subject == "memfile" {
+					for k := 0; k < 4; k++ {
+						e.store.Delete(fmt.Sprintf("k-%d-%d", e.chain, k))
+					}
 				}
 				nontrivial := completed
-				if s.Subject == "bufreader" {
-					nontrivial = nontrivial && (classes["read-crossing-end"] || classes["read-at-end"] || classes["readat-crossing-end"])
+				if c.Subject == "bufreader" {
+					nontrivial = nontrivial && (all["read-crossing-end"] || all["read-at-end"] || all["readat-crossing-end"])
 				} else {
-					nontrivial = nontrivial && (classes["writeat-gap"] || classes["writeat-crossing-end"] || classes["write-crossing-end"] || classes["write-append"])
+					nontrivial = nontrivial && all["writeat-gap"]
 				}
-				run.Count("sequences_"+s.Subject, 1)
+				run.Count("chains_"+c.Subject, 1)
 				if completed {
-					run.Count("sequences_completed", 1)
+					run.Count("chains_completed", 1)
 				}
-				run.Case(ev.JSON(s), nontrivial)
-				if i%997 == 0 && run.WantSample() {
-					run.Sample(map[string]interface{}{"case": caseID, "sequence": s})
+				run.Case(ev.JSON(c), nontrivial)
+				if i%499 == 0 && run.WantSample() {
+					run.Sample(map[string]interface{}{"case": caseID, "chain": c})
 				}
 			}
 			rc := run.Rand(fmt.Sprintf("concurrent-%d", w))
